@@ -61,6 +61,50 @@ def sizeIsSynth (sd : StructDef) : Bool :=
     | _ => false
   | none => false
 
+/-! ### constant-folding annotations that are closed constants
+
+A decidable class of annotations whose exactness needs no range reasoning: the annotated node's
+*source* expression (annotations stripped) is a closed constant expression — it evaluates, to the
+annotated literal, in the environment that knows nothing.  (All-static structures, and the static
+clauses of structures with dynamic parts, are of this kind; a literal derived from a *range* —
+e.g. the size of a structure whose last field is unconditional but follows a conditional one — is
+not.)  The driver reports per IR for how many structures `structClosedFolds` holds
+(`C01_sizeCovers_of_closed_folds`: for those `SizeCovers` is a theorem, not a hypothesis). -/
+
+def emptyEnv : Env :=
+  { read := fun _ => none, param := fun _ => none, has := fun _ => none, lv := none }
+
+mutual
+  def closedFolds : Expr → Bool
+    | .fold v orig =>
+      (match eval emptyEnv (stripFolds orig) with
+       | some v' => v' == v
+       | none => false)
+    | .op _ args => closedFoldsList args
+    | _ => true
+  def closedFoldsList : Exprs → Bool
+    | .nil => true
+    | .cons e es => closedFolds e && closedFoldsList es
+end
+
+def fieldClosedFolds (f : Field) : Bool :=
+  closedFolds f.cond &&
+  match f.kind with
+  | .phys start size _ _ => closedFolds start && closedFolds size
+  | _ => true
+
+/-- size expression = annotated `synthSize`, all annotations in it and in the fields' conditions
+and locations are closed constants -/
+def structClosedFolds (sd : StructDef) : Bool :=
+  match sd.field sd.sizeField with
+  | some fs =>
+    match fs.kind with
+    | .virt value none =>
+      exprBEq (stripFolds value) (stripFolds (synthSize sd.fields)) && closedFolds value &&
+        sd.fields.all fieldClosedFolds
+    | _ => false
+  | none => false
+
 /-! ### the two shapes of a per-field test in the generated `Ok()` (`header_generator.py:
 _generate_optimized_ok_method_body`) -/
 
